@@ -411,7 +411,8 @@ namespace occa {
 
     // We're not defined, treat this as an = operator
     if (type == none_) {
-      type = j.type;
+      *this = j;
+      return *this;
     }
     OCCA_ERROR("Cannot apply operator + with different JSON types",
                (type == array_) ||
